@@ -5,6 +5,7 @@ import (
 	"io"
 	"os"
 	"rare/pkg/logger"
+	"rare/pkg/verifhook"
 	"sync"
 )
 
@@ -26,6 +27,7 @@ func OpenFilesToChan(filenames <-chan string, gunzip bool, concurrency int, batc
 			wg.Add(1)
 			readCount++
 			out.setSourceCount(readCount + len(bufferedFilenames))
+			verifhook.Point("files.afterSourceCount")
 
 			go func(goFilename string) {
 				defer func() {
@@ -49,6 +51,7 @@ func OpenFilesToChan(filenames <-chan string, gunzip bool, concurrency int, batc
 		}
 
 		wg.Wait()
+		verifhook.Point("files.beforeClose")
 		out.close()
 	}()
 
